@@ -199,6 +199,9 @@ def classify(view, sid):
                 ev["smoother"] = view.obj(a[1]) if len(a) > 1 else None
                 ev["smoother_node"] = a[1] if len(a) > 1 else None
             return ev
+        if thisrecv and nm not in HELPERS and nm not in ("name",):
+            # an unmodelled member function may do any part of the work (extracted private helper)
+            return {"kind": "unknown", "n": n, "why": "call of the member function %s(), whose effect on the level vectors is not modelled" % nm}
         if recv is None:
             # copy of a level vector into a parameter etc. is caught below through the operands
             if nm in ("copy",) and n.get("obj") is not None and any(view.obj(x) for x in n.get("a", [])[:1]):
@@ -257,7 +260,7 @@ def classify(view, sid):
         # a free function receiving a level vector is outside the model
         for a in n.get("a", []):
             o = view.obj(a)
-            if o is not None and o[0] == "vec":
-                return {"kind": "unknown", "n": n, "why": "level vector passed to %s" % n.get("callee")}
+            if o is not None and o[0] in ("vec", "lvl", "lvlptr", "mat", "fil", "tra"):
+                return {"kind": "unknown", "n": n, "why": "level object passed to %s" % n.get("callee")}
         return None
     return None
